@@ -187,8 +187,11 @@ func (e *Engine) summarise(fn *ssa.Function) (bad bool, writes map[int]bool) {
 				if pureExternal(name) {
 					continue
 				}
+				if strings.HasPrefix(name, "(*sync/atomic.") {
+					continue // receivers of atomic methods: value unconstrained in the model, nothing else written
+				}
 				if m, ok := builtinModels[name]; ok {
-					if m.mods != nil || strings.Contains(name, "sync.Cond") || strings.Contains(name, "sync.Pool") {
+					if m.mods != nil ||strings.Contains(name, "sync.Cond") || strings.Contains(name, "sync.Pool") {
 						return true, nil
 					}
 					continue
